@@ -41,7 +41,7 @@ CHECKS["C08"] = ("fault_enumeration", "DESIGN.md §7 C08",
     "deterministic simulation with storage fault injection: systematic truncation/crafted-field/bit-flip grid + seeded multi-fault plans through all entry points; reader-call budget + stall detector as the termination clock",
     "Every mapped truncation, crafted structure-field value and header bit flip (thorough: all bits; quick: a fixed subsample) "
     "of 9 builder base images, plus seeded multi-fault combinations, splices, garbage and the 7 real samples, are pushed "
-    "through all 12 untrusted-bytes entry points on a simulated device; outcome must be a documented value or ValueError "
+    "through all 14 untrusted-bytes entry-point variants on a simulated device; outcome must be a documented value or ValueError "
     "within the reader-call budget. Fault enumeration per base image; the set of base images is sampled.",
     "Termination is judged by reader-call budget, stall detector (reads at EOF) and cycle detector (same few seek/read operations repeated), also for from_path (open() is rebound to a counting wrapper); a loop doing no I/O would only hit the wall backstop; ValueError is accepted from every entry point.")
 
